@@ -464,6 +464,30 @@ func runC05(seed int64, n int, tier string, outDir string) (*Report, error) {
 			}
 		}
 	}
+	// directed: texts that are NOT durations / instants (or are so only for the lax readers the library calls) in the
+	// duration and instant properties, top level and embedded: the decoder model answers on every such document
+	// (Model/XsdRead.v, Model/JsonDec.v read_rfc3339 - it used to abstain) and must give the value the code gives
+	{
+		durs := []string{"-", "P", "-P", "PT", "PY", "P1", "1Y", "P1YX", "P1YXX", "P1H", "P1S", "PT1Y", "PT1HT1M", "PTT1H", "P1Y2", "PT1,5S", "PT.5S", "PT5.S", "PT1.2.3S", "P-1Y", "P-0Y", "P+1D", "P300Y", "P600Y",
+			"P2147483648D", "PT9223372036S", "PT9223373000S", "PT0.1S", "PT0.0000000009S", "-PT0.1S", " P1D", "P1D ", "p1d", "P1.5D", "P1D2H", "PT1M30.5S", "-P1Y2M3DT4H5M6S", "P99999999999D", "é", "P1Yé"}
+		insts := []string{"-", "T", "2023-05-10", "2023-05-10T23:59:59", "2023-05-10T3:59:59Z", "2023-05-10T23:59:59,5Z", "2023-05-10T23:59:59.123456789999Z", "2023-05-10T23:59:59.Z", "2023-05-10T23:59:59+24:60",
+			"2023-05-10T23:59:59+24:61", "2023-05-10t23:59:59Z", "2023-05-10T23:59:59z", "2023-05-10 23:59:59Z", "2023-5-10T23:59:59Z", "2023-05-10T23:59:59Z ", " 2023-05-10T23:59:59Z", "2023-05-10T23:59:59+0100",
+			"2023-02-29T00:00:00.5Z", "2024-02-29T00:00:00.5+00:30", "Mon, 02 Jan 2006 15:04:05 MST", "2023-05-10T23:59:59.000000001-00:00", "0000-01-01T00:00:00Z", "12023-05-10T23:59:59Z", "2023-05-10T23:59:59ZZ"}
+		for i := 0; i < len(durs) || i < len(insts); i++ {
+			du, in1, in2 := durs[i%len(durs)], insts[i%len(insts)], insts[(i+7)%len(insts)]
+			q := func(t string) string { b, _ := json.Marshal(t); return string(b) }
+			text := []byte(`{"type":"Video","id":"https://example.com/v","duration":` + q(du) + `,"published":` + q(in1) + `,"endTime":` + q(in2) +
+				`,"attachment":[{"type":"Audio","duration":` + q(du) + `,"updated":` + q(in1) + `},{"type":"Tombstone","id":"https://example.com/t","deleted":` + q(in2) + `,"startTime":` + q(in1) + `}]}`)
+			rep.Evaluations++
+			rep.Count("directed-malformed-leaf")
+			y, err := ap.UnmarshalJSON(text)
+			if err != nil {
+				rep.Violate(Violation{Op: "UnmarshalJSON", Input: string(text), Expected: "no error (a text that is no duration / instant leaves the property unset)", Observed: err.Error()})
+				continue
+			}
+			cw.Add("("+hx(text)+", Ok "+CoqItem(y)+")", "malformed leaf texts "+du+" / "+in1+" / "+in2)
+		}
+	}
 	// directed: lists of pairwise DIFFERENT ids that resemble each other (a repeated query key with the same values in
 	// other proportions, the same URL embedded behind different hosts, a differing port): none is ignored
 	for li, ids := range [][]string{
